@@ -652,7 +652,6 @@ func (ab *dsAddrBook) setAddrs(p peer.ID, addrs []ma.Multiaddr, ttl time.Duratio
 		return true
 	}
 
-	var entries []*pb.AddrBookRecord_AddrEntry
 	for _, incoming := range addrs {
 		existingEntry := updateExisting(incoming)
 
@@ -674,7 +673,10 @@ func (ab *dsAddrBook) setAddrs(p peer.ID, addrs []ma.Multiaddr, ttl time.Duratio
 				Ttl:    int64(ttl),
 				Expiry: newExp,
 			}
-			entries = append(entries, entry)
+			// Add it right away, so that it takes part in the cap accounting and eviction
+			// for the rest of this call, as in the in-memory address book.
+			pr.Addrs = append(pr.Addrs, entry)
+			addrsMap[string(entry.Addr)] = entry
 			if incomingIsUnconnected {
 				unconnectedCount++
 			}
@@ -684,13 +686,6 @@ func (ab *dsAddrBook) setAddrs(p peer.ID, addrs []ma.Multiaddr, ttl time.Duratio
 			ab.subsManager.BroadcastAddr(p, incoming)
 		}
 	}
-
-	// if signed {
-	// 	// when adding signed addrs, we want to keep _only_ the incoming addrs
-	// 	pr.Addrs = entries
-	// } else {
-	pr.Addrs = append(pr.Addrs, entries...)
-	// }
 
 	pr.dirty = true
 	pr.clean(ab.clock.Now())
